@@ -271,7 +271,7 @@ def part_stream(ctx, only=None):
     real = [bytes(make_interest('/a/b', InterestParam(nonce=7, lifetime=4000))), bytes(make_data('/a', MetaInfo(), b'xy')),
             bytes(make_data('/long', MetaInfo(), bytes(300)))]
     # exhaustive cut positions on small streams
-    for it in range(ctx.n(40, 600)):
+    for it in range(ctx.n(200, 3000)):
         pk = []
         while sum(len(w) for _, w in pk) < 40 and len(pk) < rng.randint(1, 5):
             pk.append(rand_packet(rng, True))
@@ -296,7 +296,7 @@ def part_stream(ctx, only=None):
             ch = rng.choice(chunkings(rng, pre, False))
             check_stream(ctx, M, loop, [(0, c) for c in ch] + [(1,)], done, 'truncated')
     # larger streams, sampled cuts
-    for it in range(ctx.n(60, 1500)):
+    for it in range(ctx.n(150, 3000)):
         pk = [rand_packet(rng, False) if rng.random() < 0.7 else (lambda w: (w[0], w))(rng.choice(real))
               for _ in range(rng.randint(1, 6))]
         s = b''.join(w for _, w in pk)
@@ -318,7 +318,7 @@ def part_stream(ctx, only=None):
             else:
                 check_stream(ctx, M, loop, ev, pk, 'cuts.big')
     # garbage streams: the oracle is the extracted specification (packets_of)
-    for it in range(ctx.n(300, 6000)):
+    for it in range(ctx.n(1500, 30000)):
         n = rng.choice([0, 1, 2, 3, 5, 9, 12, 20, 40, 100])
         s = G.rand_bytes(rng, n) if rng.random() < 0.5 else bytes(rng.choice([0, 1, 2, 5, 6, 100, 252, 253, 254, 255, 3, 8])
                                                                   for _ in range(n))
@@ -326,7 +326,7 @@ def part_stream(ctx, only=None):
         ev = [(0, c) for c in ch] + ([(1,)] if rng.random() < 0.5 else [])
         check_stream(ctx, M, loop, ev, None, 'garbage')
     # histories with Reset / Shutdown / Eof anywhere (correspondence only)
-    for it in range(ctx.n(300, 6000)):
+    for it in range(ctx.n(1500, 30000)):
         pk = [rand_packet(rng, True) for _ in range(rng.randint(1, 4))]
         s = b''.join(w for _, w in pk)
         ev = [(0, c) for c in rng.choice(chunkings(rng, s, False))]
@@ -347,7 +347,7 @@ def part_stream(ctx, only=None):
             out.append(e)
         check_stream(ctx, M, loop, out, None, 'events')
     # a failing callback must not stop the reader loop (it is spawned as a task per packet)
-    for it in range(ctx.n(30, 300)):
+    for it in range(ctx.n(100, 1000)):
         pk = [rand_packet(rng, True) for _ in range(rng.randint(2, 5))]
         s = b''.join(w for _, w in pk)
         fail_on = {rng.randrange(len(pk))}
@@ -459,7 +459,7 @@ def part_udp(ctx, only=None):
     for d in fixed:
         one(d, False)
         one(d, True)
-    for _ in range(ctx.n(600, 10000)):
+    for _ in range(ctx.n(2500, 40000)):
         n = rng.choice([0, 1, 2, 3, 4, 5, 9, 10, 30, 200])
         d = G.rand_bytes(rng, n)
         if rng.random() < 0.4 and n:
@@ -594,6 +594,8 @@ def valid_packets(ctx):
     rng = ctx.rng
     out = []
     base = C7.valid_packets(ctx)
+    if len(base) > 1200:
+        base = rng.sample(base, 1200)       # keeps the thorough tier within its 30 min
     for di, w in base:
         if di == 0:
             out.append(('interest', 5, w))
@@ -948,7 +950,7 @@ def part_receive(ctx, only=None):
         for typ, w in KNOWN_WITNESSES:
             one('corpus', typ, w, True)
         pk = valid_packets(ctx)
-        budget = ctx.n(1500, 40000)           # oracle scenarios (each builds an application)
+        budget = ctx.n(1500, 20000)           # oracle scenarios (each builds an application)
         total = 0
         per = []
         for kind, typ, w in pk:
@@ -981,12 +983,17 @@ def run(ctx):
     ctx.extra['source_reflection'] = {'run_catches_incomplete_read': info[0], 'run_catches_conn_reset': info[1],
                                       'run_spawns_task': info[2], 'udp_guarded': info[3], 'v1_frag_guard': info[4],
                                       'v2_frag_guard': info[5], 'v1_except_lp': info[6], 'v2_except_lp': info[7]}
+    import time
+    t0 = time.time()
     try:
         part_stream(ctx)
     except StopPart:
         ctx.notes.append('stream part aborted: the reader loop did not yield')
+    t1 = time.time()
     part_udp(ctx)
+    t2 = time.time()
     part_receive(ctx)
+    ctx.extra['wall_parts_s'] = {'stream': round(t1 - t0, 1), 'udp': round(t2 - t1, 1), 'receive': round(time.time() - t2, 1)}
 
 
 def replay(ctx, data):
